@@ -43,11 +43,11 @@ PROPS = {
         "min": {"quick": {"c02.terms": 300, "c02.stops": 100, "c02.stops_inflight": 30}},
         "rule": R("benign class: 1-5 instances x 1-2 groups, H/TTL grid, latency < H/2, watch delay/drop/dup, random Start/Stop/StopWithContext/restart; oracle: instant cross-read of every instance's IsLeader() and the live record inside Metrics.SetIsLeader and at every record change/expiry"), "assumptions": SIM_ASSUME},
     "C03": {"level": "fault_enumeration", "trigger": ["c03.a_obligations", "c03.b_obligations"],
-        "batches": [sim("ctxcancel", 48, 480), sim("c03grid", 420, 7560), sim("multiterm", 60, 1500), sim("faulty", 60, 1500), sim("holdrace", 350, 3500), sim("twocause", 126, 126), sim("outage", 24, 240)],
+        "batches": [sim("busypromote", 8, 80), sim("slowdemote", 126, 252), sim("ctxcancel", 48, 480), sim("c03grid", 420, 7560), sim("multiterm", 60, 1500), sim("faulty", 60, 1500), sim("holdrace", 350, 3500), sim("twocause", 126, 126), sim("outage", 24, 240)],
         "min": {"quick": {"c03.a_obligations": 40, "c03.b_obligations": 40}},
         "rule": R("c03grid enumerates fault kind (9) x first faulty heartbeat attempt (1..6) x H (5), remaining dimensions (TTL ratio, latency, had-watch-loop) drawn per case; oracle: virtual-time bounds H+2To after replacement/deletion/expiry and 3H+3To after the last successful refresh, at most 3 failing attempts"), "assumptions": SIM_ASSUME},
     "C04": {"level": "exploration", "trigger": ["c04.calls"],
-        "batches": [sim("ctxcancel", 48, 480), sim("hostile", 300, 6000), sim("multiterm", 60, 1000), sim("lateack", 192, 768), sim("longprobe", 32, 320), sim("ownprefix", 96, 960), sim("holdrace", 350, 3500)],
+        "batches": [sim("ordemotetwice", 8, 80), sim("ctxcancel", 48, 480), sim("hostile", 300, 6000), sim("multiterm", 60, 1000), sim("lateack", 192, 768), sim("longprobe", 32, 320), sim("ownprefix", 96, 960), sim("holdrace", 350, 3500)],
         "min": {"quick": {"c04.true": 100, "c04.false": 300, "c04.calls_with_change_inside": 20}},
         "rule": R("hostile class: outside party rewrites the record with a 29-production payload grammar (incl. malformed values that begin with or wrap a well-formed own record), deletes/expires it, Get faults, probes with background/cancelled/deadline contexts, probes parked inside their Get while the record changes; oracle: verdict vs. record versions live during the call interval"), "assumptions": SIM_ASSUME},
     "C05": {"level": "exploration", "trigger": ["c05.acquisitions"],
@@ -59,19 +59,19 @@ PROPS = {
         "min": {"quick": {"c06.vacancies": 150, "c06.obligations": 300}},
         "rule": R("c06 class enumerates removal kind (6) x candidate transient fault (6) x watch policy (4) x 2 passes; oracle: at every vacancy start / fault-cease / settle / demotion instant with a healthy settled instance, a healthy instance claims within B = 500ms + 100ms + 8 legs (+ callback delay)"), "assumptions": SIM_ASSUME},
     "C07": {"level": "exploration", "trigger": ["c07.terms"],
-        "batches": [sim("restartinrelease", 8, 80), sim("stalecheck", 6, 60), sim("fastbeat", 75, 750), sim("slowbeat", 50, 500), sim("benign", 500, 12000), sim("yieldstop", 190, 570), sim("leftover", 150, 1500), sim("holdrace", 350, 3500), sim("slowdemote", 126, 252), sim("doublestop", 18, 180)],
+        "batches": [sim("lateloser", 6, 60), sim("restartinrelease", 8, 80), sim("stalecheck", 6, 60), sim("fastbeat", 75, 750), sim("slowbeat", 50, 500), sim("benign", 500, 12000), sim("yieldstop", 190, 570), sim("leftover", 150, 1500), sim("holdrace", 350, 3500), sim("slowdemote", 126, 252), sim("doublestop", 18, 180)],
         "min": {"quick": {"c07.terms": 300, "c07.terms_20h": 100}},
         "rule": R("benign class (see C02); oracle: no term ends, no token change, no lapse/owner change of a claiming leader's record unless the harness stopped it"), "assumptions": SIM_ASSUME},
     "C08": {"level": "exploration", "trigger": ["c08.promotes"],
-        "batches": [sim("promoterace", 16, 160), sim("fastbeat", 75, 750), sim("slowbeat", 50, 500), sim("multiterm", 200, 4000), sim("benign", 100, 2000), sim("faulty", 100, 2000), sim("connection", 60, 1000), sim("health2", 60, 1000), sim("hostile", 60, 1000), sim("lifecycle", 60, 1500), sim("restartinflight", 72, 216), sim("yieldstop", 190, 570), sim("leftover", 60, 600), sim("twocause", 126, 126), sim("holdrace", 350, 3500), sim("slowdemote", 126, 252), sim("dupacquire", 72, 720), sim("ctxcancel", 48, 480), sim("nowaitrestart", 18, 180), sim("newlogline", 48, 96)],
+        "batches": [sim("busypromote", 8, 80), sim("stalediag", 4, 40), sim("ordemotetwice", 8, 80), sim("lateloser", 6, 60), sim("promoterace", 16, 160), sim("fastbeat", 75, 750), sim("slowbeat", 50, 500), sim("multiterm", 200, 4000), sim("benign", 100, 2000), sim("faulty", 100, 2000), sim("connection", 60, 1000), sim("health2", 60, 1000), sim("hostile", 60, 1000), sim("lifecycle", 60, 1500), sim("restartinflight", 72, 216), sim("yieldstop", 190, 570), sim("leftover", 60, 600), sim("twocause", 126, 126), sim("holdrace", 350, 3500), sim("slowdemote", 126, 252), sim("dupacquire", 72, 720), sim("ctxcancel", 48, 480), sim("nowaitrestart", 18, 180), sim("newlogline", 48, 96)],
         "min": {"quick": {"c08.promotes": 500, "c08.demotes": 300, "c08.quiescent_checks": 5000}},
         "rule": R("oracle over the ordered callback log: strict alternation, one promotion per term with its token, IsLeader == (promotions - demotions == 1) at every quiescent point outside stop calls"), "assumptions": SIM_ASSUME},
     "C09": {"level": "fault_enumeration", "trigger": ["c09.stop_calls"],
-        "batches": [sim("restartinrelease", 8, 80), sim("closewatchstop", 16, 160), sim("fastbeat", 75, 750), sim("slowbeat", 50, 500), sim("stoppoints", 500, 2280), sim("yieldstop", 190, 570), sim("restartinflight", 72, 216), sim("lifecycle", 150, 3000), sim("benign", 100, 1500), sim("slowsink", 57, 570), sim("holdrace", 350, 3500), sim("twoinflight", 24, 240), sim("slowdemote", 126, 252), sim("doublestop", 18, 180), sim("ctxcancel", 48, 480), sim("newlogline", 48, 96)],
+        "batches": [sim("slowphases", 4, 40), sim("restartinrelease", 8, 80), sim("closewatchstop", 16, 160), sim("fastbeat", 75, 750), sim("slowbeat", 50, 500), sim("stoppoints", 500, 2280), sim("yieldstop", 190, 570), sim("restartinflight", 72, 216), sim("lifecycle", 150, 3000), sim("benign", 100, 1500), sim("slowsink", 57, 570), sim("holdrace", 350, 3500), sim("twoinflight", 24, 240), sim("slowdemote", 126, 252), sim("doublestop", 18, 180), sim("ctxcancel", 48, 480), sim("newlogline", 48, 96)],
         "min": {"quick": {"c09.stop_ok": 400, "c09.final_census": 500}},
         "rule": R("stoppoints enumerates (template cell: 20) x phase (issued-not-applied, applied-not-answered) x stop variant (17) x release delay (3) = 2040 cases (thorough: all); oracle: after the return of a successful stop no leadership claim, promotion, store-operation issue or transition; duration bounds; record gone with DeleteKey; no library goroutine left at the end"), "assumptions": SIM_ASSUME},
     "C10": {"level": "exploration", "trigger": ["c10.takeovers", "c10.refused", "c10.prompt_obligations"],
-        "batches": [sim("acklosttakeover", 12, 120), sim("negprio", 24, 240), sim("priority", 405, 1620), sim("priorace", 150, 3000), sim("multiterm", 60, 1000), sim("refusedthen", 16, 160), sim("priosucc", 256, 1536), sim("holdrace", 350, 3500), sim("chaintakeover", 24, 240)],
+        "batches": [sim("holddown", 4, 40), sim("acklosttakeover", 12, 120), sim("negprio", 24, 240), sim("priority", 405, 1620), sim("priorace", 150, 3000), sim("multiterm", 60, 1000), sim("refusedthen", 16, 160), sim("priosucc", 256, 1536), sim("holdrace", 350, 3500), sim("chaintakeover", 24, 240)],
         "min": {"quick": {"c10.takeovers": 100, "c10.prompt_obligations": 50}},
         "rule": R("priority class enumerates all assignments of priority {1,2,3} x takeover flag x start order for 2 instances (108) and 3 instances (1512) (thorough: all, exhaustive); priorace adds takeover racing the incumbent's heartbeat; oracle: safety over every replacement of a live record, promptness 3H and final owner/stability in the fault-free class"), "assumptions": SIM_ASSUME},
     "C11": {"level": "fault_enumeration", "trigger": ["c11.notifications"],
@@ -87,11 +87,11 @@ PROPS = {
         "min": {"quick": {"c13.outside.Put": 300, "c13.tamper_under_leader": 50}},
         "rule": R("hostile class (see C04) for followers, leaders and takeover-enabled candidates, zero and non-zero latency; oracle: crash / stack overflow / stall / recursion census, claims must stem from the instance's own acquisition write, tampered leader demoted within the C03(a) bound"), "assumptions": SIM_ASSUME},
     "C18": {"level": "exploration", "trigger": ["c18.snapshots"],
-        "batches": [rt("rt", 16, 200, chunk=2, timeout=1200), sim("promoterace", 16, 160), sim("fastbeat", 75, 750), sim("slowbeat", 50, 500), sim("benign", 100, 2000), sim("faulty", 100, 2000), sim("multiterm", 100, 2000), sim("lifecycle", 60, 1500), sim("priorace", 60, 1000), sim("connection", 60, 1000), sim("hostile", 60, 1000), sim("restartinflight", 72, 216), sim("slowsink", 57, 570), sim("holdrace", 350, 3500), sim("ctxcancel", 48, 480), sim("newlogline", 48, 96)],
+        "batches": [sim("slowdemote", 126, 252), rt("rt", 16, 200, chunk=2, timeout=1200), sim("promoterace", 16, 160), sim("fastbeat", 75, 750), sim("slowbeat", 50, 500), sim("benign", 100, 2000), sim("faulty", 100, 2000), sim("multiterm", 100, 2000), sim("lifecycle", 60, 1500), sim("priorace", 60, 1000), sim("connection", 60, 1000), sim("hostile", 60, 1000), sim("restartinflight", 72, 216), sim("slowsink", 57, 570), sim("holdrace", 350, 3500), sim("ctxcancel", 48, 480), sim("newlogline", 48, 96)],
         "min": {"quick": {"c18.snapshots": 5000, "c18.transitions": 1000}},
         "rule": R("oracle over Status() snapshots at quiescent points (synctest.Wait), the recording Metrics (is-leader gauge, transition chain) and the store log"), "assumptions": SIM_ASSUME},
     "C19": {"level": "exploration", "trigger": ["c19.ended_checks"],
-        "batches": [sim("promoterace", 16, 160), sim("latepromote", 8, 80), sim("ctxcancel", 48, 480), sim("fastbeat", 75, 750), sim("slowbeat", 50, 500), sim("multiterm", 250, 4000), sim("benign", 100, 1500), sim("connection", 60, 1000), sim("lifecycle", 100, 1500), sim("stoppoints", 200, 1000), sim("yieldstop", 190, 570), sim("restartinflight", 72, 216), sim("holdrace", 350, 3500), sim("lateregister", 24, 240), sim("slowdemote", 126, 252), sim("dupacquire", 72, 720), sim("newlogline", 48, 96)],
+        "batches": [sim("stalediag", 4, 40), sim("promoterace", 16, 160), sim("latepromote", 8, 80), sim("ctxcancel", 48, 480), sim("fastbeat", 75, 750), sim("slowbeat", 50, 500), sim("multiterm", 250, 4000), sim("benign", 100, 1500), sim("connection", 60, 1000), sim("lifecycle", 100, 1500), sim("stoppoints", 200, 1000), sim("yieldstop", 190, 570), sim("restartinflight", 72, 216), sim("holdrace", 350, 3500), sim("lateregister", 24, 240), sim("slowdemote", 126, 252), sim("dupacquire", 72, 720), sim("newlogline", 48, 96)],
         "min": {"quick": {"c19.ended_checks": 100}},
         "rule": R("promotion callbacks that block on their context; oracle: Done() state of each term's context at quiescent points vs. the term's end"), "assumptions": SIM_ASSUME},
 
